@@ -310,7 +310,8 @@ def run_real(case):
             recs = [V.build_record(spec) for spec in case["recs"]]
             obs = {"written": [[_val(v) for v in rec._packdict().values()] for rec in recs], "errs": []}
             # the instants the caller handed over (from the case, before any record existed)
-            obs["declared"] = [[_val(V.build(v)) if v[0] == "dt" and v[2] != "naive" else None for v in spec[2]]
+            obs["declared"] = [[_val(V.build(v)) if (v[0] == "dt" and v[2] != "naive") or
+                                v[0] in ("none", "bool", "int", "float", "str", "bytes") else None for v in spec[2]]
                                for spec in case["recs"]]
             w = RecordWriter("avro://" + path)
             for rec in recs:
@@ -462,6 +463,9 @@ def oracle(case, obs):
         for i in accepted:
             for j, dtok in enumerate(obs.get("declared", [[]] * len(specs))[i]):
                 if dtok is not None and obs["written"][i][j] != dtok:
+                    if dtok[0] != "dt":
+                        return (f"record {i}, field {specs[i][1][1][j][1]}: the value handed over is {dtok}, the record "
+                                f"written holds {obs['written'][i][j]}")
                     return (f"record {i}, field {specs[i][1][1][j][1]}: the timestamp handed over is the instant "
                             f"{dtok[1]} us, the record written holds {obs['written'][i][j]}")
         for via in ("fast", "flow"):
